@@ -92,6 +92,10 @@ class VConn(sqlite3.Connection):
                 HOOKS.on_commit(self)
             if HOOKS.on_statement is not None:
                 HOOKS.on_statement(self, "COMMIT")
+            super().commit()
+            if HOOKS.on_statement is not None and not HOOKS.dead:
+                HOOKS.on_statement(self, "AFTER_COMMIT")  # a pre-emption point: the commit is durable, the handler has not returned yet
+            return
         super().commit()
 
     def rollback(self) -> None:  # type: ignore[override]
@@ -549,6 +553,14 @@ class World:
         r = rows.get(row_id)
         if r is None:
             return None
+        outer_in_deliver = self._in_deliver
+        self._in_deliver = False  # a nested delivery (another worker) is polling: not inside a handler yet
+        try:
+            return self._deliver(row_id, r, now, ack)
+        finally:
+            self._in_deliver = outer_in_deliver
+
+    def _deliver(self, row_id: int, r: dict[str, Any], now: int, ack: bool) -> str | None:
         t = r["deliver_ms"]
         if r["lock_ms"] is not None:
             t = max(t, r["lock_ms"] + 1000)
